@@ -181,8 +181,8 @@ func (n *groupNode) Next() (bool, error) {
 						n.execInfo.hiddenBeforeOffset++
 					}
 
-					// We must hide all child documents after the offset plus limit
-					for i := childSelect.Limit.Limit + childSelect.Limit.Offset; i < l; i++ {
+					// We must hide all child documents after the offset plus limit (a limit of zero means no limit)
+					for i := childSelect.Limit.Limit + childSelect.Limit.Offset; childSelect.Limit.Limit != 0 && i < l; i++ {
 						childDocs[i].Hidden = true
 
 						n.execInfo.hiddenAfterLimit++
